@@ -180,6 +180,25 @@ def merged_cross(x):
 @memento_function(cluster="c7a", version="1")
 def unmerged_equal(x):
     return InMemoryPartition({"a": payload(x), "b": [x, "b"], "c": [x, "c"]})
+
+
+@memento_function(cluster="c7a", version="1")
+def twin_values(x):
+    # several keys of one partition hold values with the same bytes (not in the store before)
+    # (large: hashing them releases the interpreter lock, so that whatever threads the library uses really run side by side)
+    big = bytes([x % 251]) * (4 * 1024 * 1024)
+    return InMemoryPartition({"k%02d" % i: big for i in range(8)})
+
+
+@memento_function(cluster="c7a", version="1")
+def published(x):
+    from twosigma.memento.result import KeyOverrideResult
+    return KeyOverrideResult(InMemoryPartition({"eu": payload(x + 70), "us": [x, "us"]}), "tables/latest")
+
+
+@memento_function(cluster="c7a", version="1")
+def relayed(x):
+    return published(x)            # the partition read back from the store, returned as it is, without a key override
 """
 _mp_n = [0]
 
@@ -211,9 +230,15 @@ def merged_partition_scenario(root):
         exec(compile(MERGED_SRC, fname, "exec"), mod.__dict__)
         want = {"merged_same": ["a", "b", "c"], "merged_cross": ["a", "b", "c"], "unmerged_equal": ["a", "b", "c"]}
         for step, call in enumerate([("plain_a", 1), ("base", 1), ("merged_cross", 1), ("same_store_base", 2), ("merged_same", 2), ("unmerged_equal", 2),
-                                     ("merged_same", 2)]):        # (a child whose parent lives in another store is not read back: remark R5)
+                                     ("merged_same", 2), ("published", 4), ("published", 4), ("relayed", 4)] + [("twin_values", k) for k in range(3, 9)]):        # (a child whose parent lives in another store is not read back: remark R5)
             try:
-                v = getattr(mod, call[0])(call[1])
+                # (threads the library may start on its own get a chance to interleave: short switch interval)
+                old_si = sys.getswitchinterval()
+                sys.setswitchinterval(1e-6)
+                try:
+                    v = getattr(mod, call[0])(call[1])
+                finally:
+                    sys.setswitchinterval(old_si)
                 if call[0] in want:
                     keys = sorted(v.list_keys())
                     vals = {k: v.get(k) for k in keys}
@@ -221,6 +246,12 @@ def merged_partition_scenario(root):
                         fails.append(dict(clause="memento-reads-own-bytes", scenario="merged-partitions", call=list(call), keys=keys))
             except Exception as e:
                 fails.append(dict(clause="memento-reads-own-bytes", scenario="merged-partitions", call=list(call), error=repr(e)[:200]))
+            if call[0] == "relayed" and not fails:
+                mm = mod.relayed.memento(call[1])
+                ck = None if mm is None else mm.content_key
+                if ck is None or not str(ck.key).startswith("c/"):
+                    fails.append(dict(clause="content-key-is-sha256-of-bytes", scenario="merged-partitions", call=list(call),
+                                      note="a result stored without a key override does not live under a content key", content_key=str(ck)))
             for c, p in stores.items():
                 shim = types.SimpleNamespace(kind="fs", data_dir=p)
                 _, bad = sw.World.scan_blobs(shim)
@@ -277,7 +308,7 @@ def main(chk, replay=None):
                 chk.correspondence_break("dict-oracle (C05)", dict(config=cfg, first=res["oracle"][0]))
     mf = merged_partition_scenario(chk.tmpdir())
     chk.case(["merged-partitions"], nontrivial=True, sample=dict(kind="partitions merged on a parent of the same / of another store"))
-    chk.count("merged-partition-calls", 8)
+    chk.count("merged-partition-calls", 16)
     if mf:
         chk.violation({"what": "data area integrity (merged partitions): %s" % mf[0]["clause"], "class": {"clause": mf[0]["clause"], "scenario": "merged-partitions"},
                        "merged": True, "observed": mf[:3]})
